@@ -426,6 +426,11 @@ class Interp:
 
 def source_of(fn, repl=None):
     src = textwrap.dedent(inspect.getsource(fn))
+    # inspect reads the file by the line numbers of the loaded code object: if the file was edited after the import,
+    # the text is something else - refuse rather than analyse the wrong function
+    name = getattr(fn, '__name__', '')
+    if name and f'def {name}(' not in src.split(':', 1)[0] + ':' and not any(l.lstrip().startswith((f'def {name}(', f'async def {name}(')) for l in src.splitlines()[:6]):
+        raise Unsupported(f'source of {name} on disk does not match the loaded function (file changed after import?)')
     if repl:
         assert repl[0] in src, 'mutation anchor not found'
         src = src.replace(*repl)
